@@ -317,7 +317,25 @@ ExportLines(ent, cs, ls) == PutEnt(Out0, ent, cs, ls).done
 \* is taken as the start of an escape - the original syntax cannot express one.
 Text(cs, s) == IF cs THEN s ELSE Unescape(EscPlain(s))
 BoolCanon(s) == IF s = "" \/ s = "no" THEN "0" ELSE IF s = "yes" THEN "1" ELSE s
-NoTags(cs, tags) == IF cs THEN tags ELSE <<>>
+\* --- members of the lists in an entity header / body
+\* The text form separates helper arguments, base names and tags by commas and trims blanks
+\* around each member.  It can therefore carry an empty member anywhere in a list of two or
+\* more, but not blanks around a member, and a list whose only member is empty reads back as
+\* the empty list ("helper()").  A tag that is empty (or only blanks) is not a tag.
+BlankCh == {" ", "\t", "\n", "\r"}
+LStrip(s) == LET ks == {i \in 1..Len(s) : Ch(s, i) \notin BlankCh} IN
+             IF ks = {} THEN "" ELSE Drop(s, (CHOOSE i \in ks : \A j \in ks : i <= j) - 1)
+RStrip(s) == LET ks == {i \in 1..Len(s) : Ch(s, i) \notin BlankCh} IN
+             IF ks = {} THEN "" ELSE Prefix(s, CHOOSE i \in ks : \A j \in ks : j <= i)
+Strip(s) == RStrip(LStrip(s))
+ReadArgs(a) == IF Len(a) = 1 /\ Strip(a[1]) = "" THEN <<>> ELSE [k \in 1..Len(a) |-> Strip(a[k])]
+ArgsCarried(a) == ReadArgs(a) = a
+\* a base named twice is one base
+FirstOnly(q) == SelectSeq([k \in 1..Len(q) |-> IF \E m \in 1..(k - 1) : q[m] = q[k] THEN <<FALSE, q[k]>> ELSE <<TRUE, q[k]>>],
+                          LAMBDA x : x[1])
+NoTags(cs, tags) == IF cs THEN SelectSeq(tags, LAMBDA t : Strip(t) # "") ELSE <<>>
+\* label_spawnflags writes "[bit] name"; the reader takes the label and the blanks after it off
+FlagName(ls, n) == IF ls THEN LStrip(n) ELSE n
 
 ReadKV(kv, cs, ls) ==
     [kv EXCEPT
@@ -326,7 +344,7 @@ ReadKV(kv, cs, ls) ==
         !.def = IF IsFlags(kv) THEN "" ELSE IF IsBool(kv) THEN BoolCanon(Text(cs, @)) ELSE Text(cs, @),
         !.desc = IF IsFlags(kv) THEN "" ELSE Text(cs, @),
         !.list = IF IsFlags(kv)
-                 THEN [k \in 1..Len(kv.list) |-> [kv.list[k] EXCEPT !.n = Text(cs, NlToSpace(@)), !.tags = NoTags(cs, @)]]
+                 THEN [k \in 1..Len(kv.list) |-> [kv.list[k] EXCEPT !.n = FlagName(ls, Text(cs, NlToSpace(@))), !.tags = NoTags(cs, @)]]
                  ELSE IF IsChoices(kv)
                  THEN [k \in 1..Len(kv.list) |-> [kv.list[k] EXCEPT !.n = Text(FALSE, NlToSpace(@)), !.v = Text(cs, @), !.tags = NoTags(cs, @)]]
                  ELSE @]
@@ -334,7 +352,11 @@ ReadKV(kv, cs, ls) ==
 \* "0", yes/no becoming 1/0, a spawnflags caption becoming the key name): coming back unchanged
 \* is just as good - which of the two happens is the writer's choice, not the property's.
 ReadKVAlt(kv, cs, ls) ==
-    [ReadKV(kv, cs, ls) EXCEPT !.disp = Text(cs, kv.disp), !.def = Text(cs, kv.def), !.desc = Text(cs, kv.desc)]
+    [ReadKV(kv, cs, ls) EXCEPT !.disp = Text(cs, kv.disp), !.def = Text(cs, kv.def), !.desc = Text(cs, kv.desc),
+        \* (a choice caption with a backslash: read back as it was is as good as today's reading)
+        !.list = IF IsChoices(kv)
+                 THEN [k \in 1..Len(kv.list) |-> [ReadKV(kv, cs, ls).list[k] EXCEPT !.n = PlainDecay(NlToSpace(kv.list[k].n))]]
+                 ELSE @]
 ReadIO(io, cs) == [io EXCEPT !.tags = NoTags(cs, @), !.type = IoDecay(io), !.desc = Text(cs, @)]
 
 \* a definition read twice under one (key, tags) replaces the earlier one but keeps its place
@@ -362,13 +384,14 @@ ExportParse(ent, cs, ls) ==
         kvs == Normal([k \in 1..Len(sorted) |-> ReadKV(sorted[k], cs, ls)])
     IN  [ent EXCEPT
             !.alias = FALSE,
+            !.bases = [k \in 1..Len(FirstOnly(ReadArgs(ent.bases))) |-> FirstOnly(ReadArgs(ent.bases))[k][2]],
             !.helpers = SelectSeq(@, LAMBDA h : HelperShown(h, cs)),
             !.desc = Text(cs, @),
             !.kvs = kvs,
             !.order = KeysOf(kvs, 1),
             !.ins = Normal([k \in 1..Len(ent.ins) |-> ReadIO(ent.ins[k], cs)]),
             !.outs = Normal([k \in 1..Len(ent.outs) |-> ReadIO(ent.outs[k], cs)]),
-            !.res = IF cs THEN @ ELSE <<>>,
+            !.res = IF cs THEN [k \in 1..Len(ent.res) |-> [ent.res[k] EXCEPT !.tags = NoTags(TRUE, @)]] ELSE <<>>,
             !.res_set = IF cs THEN @ ELSE FALSE]
 
 \* Without custom syntax the tagged variants of one key are all written, untagged
@@ -389,7 +412,19 @@ PlainSafe(ent) == \A t \in TextsOf(ent) : "\\" \notin Chars(t)
 \* "yes"/"no" are old spellings of boolean defaults; the reader replaces them, so
 \* only definitions without them re-export to the same text
 Canonical(ent) == \A k \in 1..Len(ent.kvs) : IsBool(ent.kvs[k]) => ent.kvs[k].def \notin {"yes", "no"}
-ReExportable(ent, cs) == Canonical(ent) /\ (cs \/ (PlainRepresentable(ent) /\ PlainSafe(ent)))
+\* every member of every list is one the text form carries as it is
+TagsCarried(tags) == \A k \in 1..Len(tags) : Strip(tags[k]) # ""
+ListsCarried(ent) ==
+    /\ ArgsCarried(ent.bases) /\ Cardinality({ent.bases[k] : k \in 1..Len(ent.bases)}) = Len(ent.bases)
+    /\ \A k \in 1..Len(ent.helpers) : ArgsCarried(ent.helpers[k].a)
+    /\ \A k \in 1..Len(ent.kvs) : /\ TagsCarried(ent.kvs[k].tags)
+                                   /\ \A m \in 1..Len(ent.kvs[k].list) :
+                                         /\ TagsCarried(ent.kvs[k].list[m].tags)
+                                         /\ (IsFlags(ent.kvs[k]) => LStrip(ent.kvs[k].list[m].n) = ent.kvs[k].list[m].n)
+    /\ \A k \in 1..Len(ent.ins) : TagsCarried(ent.ins[k].tags)
+    /\ \A k \in 1..Len(ent.outs) : TagsCarried(ent.outs[k].tags)
+    /\ \A k \in 1..Len(ent.res) : TagsCarried(ent.res[k].tags)
+ReExportable(ent, cs) == Canonical(ent) /\ ListsCarried(ent) /\ (cs \/ (PlainRepresentable(ent) /\ PlainSafe(ent)))
 ExportParseAlt(ent, cs, ls) ==
     LET sorted == SortedKvs(ent) IN
     [ExportParse(ent, cs, ls) EXCEPT !.kvs = Normal([k \in 1..Len(sorted) |-> ReadKVAlt(sorted[k], cs, ls)])]
